@@ -54,6 +54,36 @@ pub struct Newtype(pub i64);
 pub struct TupleStruct(pub u8, pub String, pub Option<bool>);
 
 #[derive(Clone, Debug, PartialEq, Serialize, Deserialize)]
+pub struct NewtypeSeq(pub Vec<u32>);
+
+#[derive(Clone, Debug, PartialEq, Serialize, Deserialize)]
+pub struct NewtypeNested(pub Vec<Vec<u8>>);
+
+#[derive(Clone, Debug, PartialEq, Serialize, Deserialize)]
+pub struct NewtypeTuple1(pub (u8,));
+
+#[derive(Clone, Debug, PartialEq, Serialize, Deserialize)]
+pub struct NewtypeArr1(pub [i8; 1]);
+
+#[derive(Clone, Debug, PartialEq, Serialize, Deserialize)]
+pub struct NewtypeOpt(pub Option<Vec<u8>>);
+
+#[derive(Clone, Debug, PartialEq, Serialize, Deserialize)]
+pub struct NewtypeMap(pub BTreeMap<String, u8>);
+
+#[derive(Clone, Debug, PartialEq, Serialize, Deserialize)]
+pub struct NewtypeEnum(pub UnitOnly);
+
+#[derive(Clone, Debug, PartialEq, Serialize, Deserialize)]
+pub struct NewtypeStr(pub String);
+
+#[derive(Clone, Debug, PartialEq, Serialize, Deserialize)]
+pub struct NewtypeUnit(pub ());
+
+#[derive(Clone, Debug, PartialEq, Serialize, Deserialize)]
+pub struct Tuple1Struct(pub Vec<i8>, pub ());
+
+#[derive(Clone, Debug, PartialEq, Serialize, Deserialize)]
 pub struct Named {
 	pub a: i32,
 	pub b: String,
@@ -140,6 +170,18 @@ pub enum Datum {
 	OptOpt(Option<Option<u8>>),
 	Floats(Vec<F64>),
 	Floats32(Vec<F32>),
+	NtSeq(NewtypeSeq),
+	NtNested(NewtypeNested),
+	NtTuple1(NewtypeTuple1),
+	NtArr1(NewtypeArr1),
+	NtOpt(NewtypeOpt),
+	NtMap(NewtypeMap),
+	NtEnum(NewtypeEnum),
+	NtStr(NewtypeStr),
+	NtUnit(NewtypeUnit),
+	Tuple1Struct(Tuple1Struct),
+	Tup1((Vec<u8>,)),
+	EnumKeyed(BTreeMap<String, E>),
 }
 
 macro_rules! gen_int {
@@ -228,7 +270,8 @@ fn gen_named(rng: &mut Rng, depth: usize) -> Named {
 }
 
 pub fn gen_datum(rng: &mut Rng, depth: usize) -> Datum {
-	let n = if depth >= 3 { 20 } else { 39 };
+	let n = if depth >= 3 { 20 } else { 51 };
+	let short = |rng: &mut Rng| -> usize { [0usize, 1, 1, 1, 2, 3][rng.below(6)] };
 	let sub = |rng: &mut Rng| gen_datum(rng, depth + 1);
 	let len = |rng: &mut Rng| [0, 1, 2, 3, 6][rng.below(5)];
 	match rng.below(n) {
@@ -288,7 +331,19 @@ pub fn gen_datum(rng: &mut Rng, depth: usize) -> Datum {
 		35 => Datum::MapNewtype((0..len(rng)).map(|_| (IntKey(gen_int!(rng, u16)), gen_int!(rng, i32))).collect()),
 		36 => Datum::OptOpt([None, Some(None), Some(Some(7))][rng.below(3)]),
 		37 => Datum::Floats((0..len(rng)).map(|_| F64(gen_f64(rng))).collect()),
-		_ => Datum::Floats32((0..len(rng)).map(|_| F32(gen_f32(rng))).collect()),
+		38 => Datum::Floats32((0..len(rng)).map(|_| F32(gen_f32(rng))).collect()),
+		39 => Datum::NtSeq(NewtypeSeq((0..short(rng)).map(|_| gen_int!(rng, u32)).collect())),
+		40 => Datum::NtNested(NewtypeNested((0..short(rng)).map(|_| (0..short(rng)).map(|_| gen_int!(rng, u8)).collect()).collect())),
+		41 => Datum::NtTuple1(NewtypeTuple1((gen_int!(rng, u8),))),
+		42 => Datum::NtArr1(NewtypeArr1([gen_int!(rng, i8)])),
+		43 => Datum::NtOpt(NewtypeOpt(if rng.chance(1, 3) { None } else { Some((0..short(rng)).map(|_| gen_int!(rng, u8)).collect()) })),
+		44 => Datum::NtMap(NewtypeMap((0..short(rng)).map(|_| (gen_str(rng), gen_int!(rng, u8))).collect())),
+		45 => Datum::NtEnum(NewtypeEnum([UnitOnly::A, UnitOnly::B, UnitOnly::C][rng.below(3)])),
+		46 => Datum::NtStr(NewtypeStr(gen_str(rng))),
+		47 => Datum::NtUnit(NewtypeUnit(())),
+		48 => Datum::Tuple1Struct(Tuple1Struct((0..short(rng)).map(|_| gen_int!(rng, i8)).collect(), ())),
+		49 => Datum::Tup1(((0..short(rng)).map(|_| gen_int!(rng, u8)).collect(),)),
+		_ => Datum::EnumKeyed((0..short(rng)).map(|_| (gen_str(rng), gen_e(rng, depth + 1))).collect()),
 	}
 }
 
@@ -495,7 +550,7 @@ pub fn run_c16(cfg: &Config) -> i32 {
 		cfg,
 		EvidenceMeta {
 			id: "C16",
-			rule: "a case is an instance of the derive-annotated type family (39 top-level shapes: all integer widths at their bounds, f32/f64 incl. non-finite and subnormal, char, strings that look like numbers, unit, unit/newtype/tuple/named structs, an enum with unit/renamed/newtype/tuple/struct/empty-struct variants, options, tuples, arrays, sequences, maps keyed by String, i8..i64, u8..u64, char, unit-variant enum, integer newtype; recursive nesting) generated from the seed; checked: (1) from_value(to_value(x)) == x whenever serde_json's own Value round trip returns x, (2) to_value(x) has the same JSON shape as serde_json::to_value(x), (3) from_value(from_serde_json(serde_json::to_value(x))) == x, (4) from_value(parse(serde_json::to_string(x))) == x, under the same proviso; plus raw f64/f32 bit patterns through to_value/from_value; distinct by hash of the Debug rendering",
+			rule: "a case is an instance of the derive-annotated type family (51 top-level shapes: all integer widths at their bounds, f32/f64 incl. non-finite and subnormal, char, strings that look like numbers, unit, unit/newtype/tuple/named structs, an enum with unit/renamed/newtype/tuple/struct/empty-struct variants, options, tuples, arrays, sequences, newtype structs over sequences / one-element tuples and arrays / options / maps / enums / strings / unit, maps keyed by String, i8..i64, u8..u64, char, unit-variant enum, integer newtype; recursive nesting) generated from the seed; checked: (1) from_value(to_value(x)) == x whenever serde_json's own Value round trip returns x, (2) to_value(x) has the same JSON shape as serde_json::to_value(x), (3) from_value(from_serde_json(serde_json::to_value(x))) == x, (4) from_value(parse(serde_json::to_string(x))) == x, under the same proviso; plus raw f64/f32 bit patterns through to_value/from_value; distinct by hash of the Debug rendering",
 			exhaustive: false,
 			assumptions: vec![
 				"serde_json 1.0.x with default features is the stated reference; data serde_json itself cannot round-trip (non-finite floats, Some(None), ...) are excluded from the round-trip relations".into(),
@@ -839,6 +894,11 @@ pub fn run_c17(cfg: &Config) -> i32 {
 			if k % 64 == 2 {
 				inject_token(&mut rng, &mut r);
 			}
+			if k % 128 == 7 {
+				let d = rng.range(100, 120);
+				rep.max("deepest_serialized_nesting", d as u64);
+				r = gen_deep_rval(&mut rng, d);
+			}
 			rep.distinct_hash(fnv(doc_of(&r).as_bytes()));
 			if let RVal::Num(s) = &r {
 				let class = if is_k1(s) {
@@ -900,6 +960,39 @@ fn gen_sj_number(rng: &mut Rng) -> serde_json::Number {
 			}
 		},
 	}
+}
+
+/// A serde_json value nested `depth` levels deep whose containers hold several
+/// children at every level (so that order and key/value pairing are observable).
+fn gen_deep_sj(rng: &mut Rng, depth: usize) -> serde_json::Value {
+	use serde_json::Value as S;
+	let mut v = S::Array(vec![S::from(1), S::from(2), S::from(3)]);
+	for d in 0..depth {
+		v = match (d + rng.below(2)) % 3 {
+			0 => S::Array(vec![S::from(d as u64), v, S::String(format!("s{}", d))]),
+			1 => {
+				let mut m = serde_json::Map::new();
+				m.insert("a".into(), S::from(d as u64));
+				m.insert("b".into(), v);
+				m.insert("c".into(), S::Bool(d % 2 == 0));
+				S::Object(m)
+			}
+			_ => S::Array(vec![v]),
+		};
+	}
+	v
+}
+
+fn gen_deep_rval(rng: &mut Rng, depth: usize) -> RVal {
+	let mut v = RVal::Obj(vec![("x".into(), RVal::Num("1".into())), ("y".into(), RVal::Num("2".into())), ("z".into(), RVal::Arr(vec![RVal::Num("10".into()), RVal::Num("20".into()), RVal::Num("30".into())]))]);
+	for d in 0..depth {
+		v = match (d + rng.below(2)) % 3 {
+			0 => RVal::Arr(vec![RVal::Num(d.to_string()), v, RVal::Str(format!("s{}", d))]),
+			1 => RVal::Obj(vec![("a".into(), RVal::Num(d.to_string())), ("b".into(), v), ("c".into(), RVal::Bool(d % 2 == 0))]),
+			_ => RVal::Arr(vec![v]),
+		};
+	}
+	v
 }
 
 fn gen_sj_value(rng: &mut Rng, depth: usize) -> serde_json::Value {
@@ -1092,7 +1185,15 @@ pub fn run_c18(cfg: &Config) -> i32 {
 		let mut rng = Rng::new(seed).fork(0xc18 + i as u64);
 		for k in 0..(n / shards as u64).max(1) {
 			if k % 2 == 0 {
-				let s = if k % 8 == 0 { serde_json::Value::Number(gen_sj_number(&mut rng)) } else { gen_sj_value(&mut rng, 0) };
+				let s = if k % 8 == 0 {
+					serde_json::Value::Number(gen_sj_number(&mut rng))
+				} else if k % 64 == 2 {
+					let d = rng.range(100, 300);
+					rep.max("deepest_converted_nesting", d as u64);
+					gen_deep_sj(&mut rng, d)
+				} else {
+					gen_sj_value(&mut rng, 0)
+				};
 				rep.distinct_hash(fnv(s.to_string().as_bytes()));
 				c18_from_sj(&mut rep, &s);
 				if i == 0 && k < 4 {
@@ -1111,6 +1212,10 @@ pub fn run_c18(cfg: &Config) -> i32 {
 						}
 						_ => gen_c17_number(&mut rng),
 					})
+				} else if k % 64 == 5 {
+					let d = rng.range(100, 300);
+					rep.max("deepest_converted_nesting", d as u64);
+					gen_deep_rval(&mut rng, d)
 				} else {
 					gen_c17_value(&mut rng, k % 16 == 3)
 				};
